@@ -825,6 +825,11 @@ func (ch *clientHost) checkRedirect(repo string, orig func(req *http.Request, vi
 		if len(via) >= 10 {
 			return errors.New("stopped after 10 redirects")
 		}
+		// net/http keeps the authorization header when only the port of the host changes,
+		// credentials are only sent to the host and port they belong to
+		if len(via) > 0 && req.URL.Host != via[len(via)-1].URL.Host {
+			req.Header.Del("Authorization")
+		}
 		// add auth headers if appropriate for the target host
 		hAuth := ch.getAuth(repo)
 		err := hAuth.UpdateRequest(req)
